@@ -108,6 +108,15 @@ namespace OP2Utility
 
 		VerifyValidBitCount(bitCount);
 
+		if (width < 0) {
+			throw std::runtime_error("Image width may not be negative, but this image has a width of " + std::to_string(width));
+		}
+
+		// Height may be negative (top down scan lines), but its magnitude must be representable
+		if (height == INT32_MIN) {
+			throw std::runtime_error("Image height of " + std::to_string(height) + " is not supported");
+		}
+
 		if (usedColorMapEntries > CalcMaxIndexedPaletteSize()) {
 			throw std::runtime_error("Used color map entries is greater than possible range of color map (palette)");
 		}
